@@ -86,13 +86,21 @@ def step_lines(h, t):
     return s
 
 
-def scen_A(cfg, tfmode, h, T, binary):
+def scen_A(cfg, tfmode, h, T, binary, save_at=None):
+    """uninterrupted run; save_at: a state is written (and discarded) after that step, as an engine writing restart files does"""
     s = ctl.header(tfmode, extra="dt 1.0\ntemp 300.0" + ("\nenv COLVARS_BINARY_RESTART 1" if binary else "\nenv COLVARS_BINARY_RESTART 0"))
     s += "module\nconfig <<EOC\n" + cfg + "EOC\ninit\n"
     for t in range(T + 1):
         s += step_lines(h, t)
+        if save_at is not None and t == save_at:
+            s += "savestr\n"
     s += "savestr\n"
     return s
+
+
+# families in which writing a state is known to change the later steps (known finding): the resumed run is compared with an
+# uninterrupted run that wrote a (discarded) state at the same step, and the effect of the write itself is judged separately
+STATE_WRITE_SIDE_EFFECT = ("meta_gridfreq",)
 
 
 def scen_B1(cfg, tfmode, h, K, binary, prefix):
@@ -226,7 +234,11 @@ def run(tier, replay):
             v = "loadbuf " + hx + "\n"
         r2, ev2, sp2 = common.run_esim("plain", scen_B2(job["cfg"], job["tfm"], job["h"], K, T, job["binary"], prefix, v),
                                        wd, "B2_%d" % K, timeout=300)
-        return dict(r=r2, ev=ev2, sp=[sp1, sp2], ev1=ev1, stage="B2")
+        out = dict(r=r2, ev=ev2, sp=[sp1, sp2], ev1=ev1, stage="B2")
+        if job["fam"] in STATE_WRITE_SIDE_EFFECT:
+            ra, eva, spa = common.run_esim("plain", scen_A(job["cfg"], job["tfm"], job["h"], T, job["binary"], save_at=K), wd, "AK_%d" % K, timeout=300)
+            out["ak"] = dict(r=ra, ev=eva, sp=[spa])
+        return out
 
     res = common.pmap(do, jobs)
     A = {}
@@ -251,6 +263,22 @@ def run(tier, replay):
             continue
         c.count()
         K = job["K"]
+        if out.get("ak") and out["ak"]["r"]["complete"]:
+            # does the write itself change the later steps?  (uninterrupted run with vs without a discarded state at step K)
+            a_plain = a
+            a = out["ak"]
+            pa = {e["it"]: e for e in a_plain["ev"] if e["ev"] == "step"}
+            for e in [x for x in a["ev"] if x["ev"] == "step" and x["it"] > K]:
+                d = None
+                for f in STEP_FIELDS:
+                    d = cmp_val(pa[e["it"]].get(f), e.get(f), RTOL, f)
+                    if d:
+                        break
+                if d:
+                    c.violation("state_write_changes_later_steps:%s:%s" % (fam, "binary" if binary else "text"),
+                                "K=%d: an uninterrupted run that writes (and discards) a state after step K differs from one that does not: "
+                                "step %d: %s" % (K, e["it"], d), a["sp"] + a_plain["sp"])
+                    break
         via = job["via"]
         key = "%s:%s:%s" % (fam, fmt, via)
         if not out["r"]["complete"]:
